@@ -24,6 +24,12 @@ func init() {
 			"two fields are treated as the same field only when name, alias, absence of selections, arguments and directives agree, and a selection is removed only on that verdict after its defer information was merged. " +
 			"It does not decide exec(norm(q)) == exec(q), validity preservation or idempotence (value level).",
 		Mutants: []Mutant{
+			{Name: "label of @defer read without a kind test (reverts the F49 fix)", File: "v2/pkg/astnormalization/defer_expand_into_internal.go", Rule: "C03-R9", Key: "deferExpandIntoInternalVisitor.EnterInlineFragment/kind-matches-ref:StringValueContentString",
+				Old: "\tif hasLabel && labelValue.Kind == ast.ValueKindString {\n", New: "\tif hasLabel {\n"},
+			{Name: "ids of the internal defer directive read without a kind test (reverts the F50 fix)", File: "v2/pkg/ast/ast_field.go", Rule: "C03-R9", Key: "Document.MergeFieldsDefer/kind-matches-ref:IntValueAsInt",
+				Old: "\t\tif leftDeferIdValue.Kind != ValueKindInteger || rightDeferIdValue.Kind != ValueKindInteger {\n\t\t\t// not written by the normalizer (the internal directive can be spelled by a client): nothing to reconcile\n\t\t\treturn\n\t\t}\n", New: ""},
+			{Name: "default of a @skip variable read without a kind test (reverts the F51 fix)", File: "v2/pkg/ast/ast_val_variable_value.go", Rule: "C03-R9", Key: "Document.GetVariableBooleanValue/kind-matches-ref:BooleanValue",
+				Old: "if d.VariableDefinitions[i].DefaultValue.IsDefined && d.VariableDefinitions[i].DefaultValue.Value.Kind == ValueKindBoolean {", New: "if d.VariableDefinitions[i].DefaultValue.IsDefined {"},
 			{Name: "Int values compare equal regardless of their sign (seeded change C04-21)", File: "v2/pkg/ast/ast_val_int_value.go", Rule: "C03-R8", Key: "copy-equal/IntValue.Negative",
 				Old: "\treturn d.IntValueIsNegative(left) == d.IntValueIsNegative(right) &&\n\t\tbytes.Equal(d.IntValueRaw(left), d.IntValueRaw(right))", New: "\treturn bytes.Equal(d.IntValueRaw(left), d.IntValueRaw(right))"},
 			{Name: "enclosing type resolved in the operation document while inlining a fragment spread", File: "v2/pkg/astnormalization/fragment_spread_inlining.go", Rule: "C03-R7", Key: "fragmentSpreadInlineVisitor.replaceFragmentSpread/Document.NodeNameBytes",
@@ -70,6 +76,10 @@ func runC03(r *fw.Run) {
 
 	r.Rule("C03-R8", "for every node type of package ast that has both a Copy and an equality function, the equality reads every field the Copy treats as content of the node (positions are not content; four frozen, reasoned exceptions)")
 	copyEqualAgreement(r, "C03-R8", 12)
+
+	r.Rule("C03-R9", "normalization runs before validation: in astnormalization and package ast the ref of an ast.Value is handed to an accessor of kind K (doc.<K>Value…(v.Ref), doc.<K>Values[v.Ref]) only where v.Kind is known to be K (equality or switch clause on the same value, a boolean local defined from it, or every caller of an unexported helper); VariableDefinition.VariableValue is a variable by construction")
+	nKR := kindRefAgreement(r, "C03-R9", []string{"astnorm", "ast"}, nil)
+	r.Expect("C03-R9", "kind-specific uses of a value's ref", nKR, 40)
 
 	r.Rule("C03-R7", "in every normalization visitor a node is looked up only in the document it came from: a definition node (Walker.EnclosingTypeDefinition, TypeDefinitions, a lookup in the definition) is never handed to a method of the operation document, nor the other way round")
 	documentProvenance(r, "C03-R7", []string{"astnorm"}, 23)
